@@ -60,6 +60,7 @@ structure Req where
   gotRunner : Option Rid := none
   gotErr : Bool := false
   heldBy : Option Rid := none    -- ghost: the runner this request was handed and has not released yet
+  dropped : Bool := false        -- ghost: skipped by the pending loop because it was already cancelled
 deriving Repr, DecidableEq
 
 inductive PPC
@@ -277,7 +278,8 @@ def step (v : Variant) (s : State) : Act → Option State
     match s.ppc, s.pendingQ with
     | .idle, q :: rest =>
       let s := { s with pendingQ := rest }
-      if (s.reqs q).done then some s else some { s with ppc := .eval q }
+      if (s.reqs q).done then some (setReq s q { s.reqs q with dropped := true })
+      else some { s with ppc := .eval q }
     | _, _ => none
   | .pDrainUnloaded =>
     match s.ppc with
